@@ -447,6 +447,6 @@ CLAIM = {
             "transitions are unreachable from backtest modules. add_executed_order, add_order, update_active_orders, "
             "count_active_orders, _get_executing_orders, Sandbox.cancel_all_orders are interpreted on a registry holding orders "
             "of every status. Pruning runs once per route and step in both simulators (trace rule). The exhaustive matching-loop "
-            "runs show that no order fills twice and cancelled orders are skipped.",
+            "runs show that no order fills twice and cancelled orders are skipped. cancel_all_orders is also interpreted with the repository's own Order.cancel (queued MARKET + STOP + LIMIT); lazy filter() / one-shot iterator semantics are modelled.",
     "note": "Trusted: interpreter semantics; ledgers/hook are abstract sinks; sequences longer than two calls follow by induction from state-independence of the guard.",
 }
